@@ -371,6 +371,10 @@ def gen_gc_case(seed, tier):
         limit = cutoff_age
     nshares = ch.randint(W, "nshares", 1, 8)
     ages_menu = [limit - 2 * DAY, limit - 100, limit - 1, limit + 1, limit + 100, limit + 3 * DAY, 0, 1 * DAY, 70 * DAY, LEASE - 1, LEASE + 1]
+    if mode == "cutoff-date":
+        # a cut-off *date* means the UTC midnight that starts it: renewals spread over the day before and after that instant
+        # (hours, not only seconds, away from it -- the distance a local-time reading of the date would move the cut-off)
+        ages_menu += [limit + h * 3600 for h in (-9, -3, 1, 5, 9, 13, 15, 17, 19, 21, 22, 23, 25, 30, 36)]
     ages_menu = [a for a in ages_menu if a >= 0]
     events = []
     for s in range(nshares):
@@ -397,6 +401,9 @@ def gen_gc_case(seed, tier):
                     # the cycle then needs several slices), and all buckets crowded into few prefix directories
                     # the policy reaches the server through tahoe.cfg and the client's own option parsing, in a drawn spelling
                     "via_config": ch.chance("config", "via_config", 0.4),
+                    # the process's local time zone while the configuration is read and the crawler runs (POSIX TZ strings:
+                    # XST8 = 8 h west of UTC, XST-8 = 8 h east); the documented meaning of every option is in UTC
+                    "tz": ch.pick("config", "tz", ["UTC", "UTC", "XST8", "XST-8", "XST-5:30", "XST11", "XST-13"]),
                     "spell_enabled": ch.pick("config", "spell", ["true", "True", "yes", "1", "on"] if enabled else ["false", "False", "no", "0", "off", None]),
                     "bucket_cost": ch.pick("config", "bucket_cost", [0, 0, 0.3, 0.6, 1.2]),
                     "nprefixes": ch.pick("config", "nprefixes", [1024, 1024, 1, 2])},
@@ -466,6 +473,23 @@ def execute_gc(case):
     R._now = T - CRAWL_DELAY
     mode = "age" if cfg["mode"].startswith("age") else "cutoff-date"
     cutoff = int(T - cfg["cutoff_age"]) if mode == "cutoff-date" else None
+    import time as _t
+    old_tz = os.environ.get("TZ")
+    if cfg.get("via_config") and cfg.get("tz"):
+        os.environ["TZ"] = cfg["tz"]
+        _t.tzset()
+    try:
+        return _execute_gc_rest(case, cfg, base, T, model, mode, cutoff, viol, CRAWL_DELAY)
+    finally:
+        if cfg.get("via_config") and cfg.get("tz"):
+            if old_tz is None:
+                os.environ.pop("TZ", None)
+            else:
+                os.environ["TZ"] = old_tz
+            _t.tzset()
+
+
+def _execute_gc_rest(case, cfg, base, T, model, mode, cutoff, viol, CRAWL_DELAY):
     if cfg.get("via_config"):
         # the production path: [storage] expire.* in tahoe.cfg -> _Client.get_anonymous_storage_server() -> StorageServer
         import time as _t
